@@ -198,11 +198,17 @@ func rulesC01Round2(c *Ctx, g *CG, cone []*ssa.Function, parent map[*ssa.Functio
 	// The working tree of a proposal is an overlay that is flushed into the canonical tree when its root is computed; a
 	// reset must therefore replace the canonical tree by a fresh one (at the committed root, or rebuilt from the init
 	// state before the first commit) on every path, or the next proposal runs on top of an undecided one's writes.
-	if fn := c.needFn("C01.proposal", "consensus/cometbft/abci.(*applicationState).resetProposal"); fn != nil {
+	resetProposalRule(c, "C01.proposal")
+}
+
+// resetProposalRule (shared: C01 — replicas execute a proposal on the committed state only; C09 — the nonce advances of an
+// undecided proposal must not be visible to the next one, or a transaction executes out of sequence).
+func resetProposalRule(c *Ctx, rule string) {
+	if fn := c.needFn(rule, "consensus/cometbft/abci.(*applicationState).resetProposal"); fn != nil {
 		stores := StoresTo(fn, "s.canonicalState=", "consensus/cometbft/abci.applicationState.canonicalState")
 		inst := fname(fn) + ":canonical tree re-created on every path"
 		if stores.Empty() {
-			c.Fail("C01.proposal", inst, c.P.Pos(fn.Pos()), "resetProposal no longer replaces the canonical tree")
+			c.Fail(rule, inst, c.P.Pos(fn.Pos()), "resetProposal no longer replaces the canonical tree")
 		} else {
 			hit := Reach(fn, nil, nil, func(i ssa.Instruction) bool { _, r := i.(*ssa.Return); return r }, NewCut().AddInstr(stores.Ins...))
 			fresh := true
@@ -212,7 +218,7 @@ func rulesC01Round2(c *Ctx, g *CG, cone []*ssa.Function, parent map[*ssa.Functio
 					fresh = false
 				}
 			}
-			c.Check(hit == nil && fresh, "C01.proposal", inst, c.P.InstrPos(stores.Ins[0]), "every path assigns a freshly constructed tree to the canonical state", "a path through resetProposal keeps the previous canonical tree (or assigns a tree that is not freshly constructed): the writes of an undecided proposal, flushed into it when its state root was computed, stay and the next proposal for the height executes on top of them")
+			c.Check(hit == nil && fresh, rule, inst, c.P.InstrPos(stores.Ins[0]), "every path assigns a freshly constructed tree to the canonical state", "a path through resetProposal keeps the previous canonical tree (or assigns a tree that is not freshly constructed): the writes of an undecided proposal, flushed into it when its state root was computed, stay and the next proposal for the height executes on top of them")
 		}
 	}
 }
